@@ -708,6 +708,47 @@ def run_sequence(rec, pool, pr, rnd, nops, tmp, fresh_rate):
         ep._regex_cache.pop(pat, None)
 
 
+def duplicate_supplemental_probe(rec, tmp):
+    """Two supplemental sources under ONE name (an export per year): whatever the loader makes of them, the data handed to the rules can be read as
+    often as there are transactions - classifying the same transaction again, or another one after it, gives what a freshly loaded copy gives."""
+    from tally.config_loader import load_config, load_supplemental_sources
+    from tally.merchant_engine import parse_merchants
+    root = os.path.join(tmp, 'dupsupp')
+    shutil.rmtree(root, ignore_errors=True)
+    os.makedirs(os.path.join(root, 'config'))
+    os.makedirs(os.path.join(root, 'data'))
+    for y, rows_ in (('2024', '2024-03-02,20.00,Book\n2024-05-09,7.50,Cable\n'), ('2025', '2025-01-04,20.00,Lamp\n2025-02-11,99.00,Chair\n')):
+        O.write(os.path.join(root, 'data', 'orders-%s.csv' % y), 'Date,Amount,Item\n' + rows_)
+    O.write(os.path.join(root, 'data', 'card.csv'), 'Date,Description,Amount\n2025-01-05,AMAZON MKTP,20.00\n')
+    O.write(os.path.join(root, 'config', 'settings.yaml'), 'year: 2025\ndata_sources:\n  - name: Card\n    file: data/card.csv\n    format: "{date:%Y-%m-%d},{description},{amount}"\n' +
+            ''.join('  - name: Orders\n    file: data/orders-%s.csv\n    supplemental: true\n    format: "{date:%%Y-%%m-%%d},{amount},{description}"\n' % y for y in ('2024', '2025')))
+    cfgd = os.path.join(root, 'config')
+    text = ('[Ordered]\nlet: hits = [r for r in orders if r.amount == amount]\nmatch: contains("AMAZON") and len(hits) > 0\ncategory: Shopping\nsubcategory: Ordered\n'
+            'field: items = [r.description for r in hits]\ntags: {len(hits)}\n\n[Amazon]\nmatch: contains("AMAZON")\ncategory: Shopping\nsubcategory: Other\n')
+    txns = [{'description': 'AMAZON MKTP 1', 'amount': 20.0, 'date': date(2025, 1, 5), 'field': None, 'source': 'Card'},
+            {'description': 'AMAZON MKTP 2', 'amount': 99.0, 'date': date(2025, 2, 12), 'field': None, 'source': 'Card'},
+            {'description': 'AMAZON MKTP 1', 'amount': 20.0, 'date': date(2025, 1, 5), 'field': None, 'source': 'Card'}]
+    try:
+        loaded = load_supplemental_sources(load_config(cfgd), cfgd)
+        eng = parse_merchants(text)
+        for k, t_ in enumerate(txns):
+            def surf(ds):
+                r = eng.match(copy.deepcopy(t_), data_sources=ds)
+                return (r.merchant, r.category, r.subcategory, sorted(r.tags), repr(sorted(r.extra_fields.items())))
+            got = surf(loaded)
+            want = surf(load_supplemental_sources(load_config(cfgd), cfgd))
+            rec.case()
+            rec.count('duplicate_supplemental_source_checks')
+            if got != want:
+                rec.violation('supplemental-data-used-up-by-earlier-classifications', f'two supplemental sources named Orders: transaction #{k} ({t_["description"]}, {t_["amount"]}) classified with the '
+                              f'data loaded once gives {got}; with freshly loaded data {want}', {'kind': 'dup-supplemental'})
+                break
+    except Exception as e:
+        rec.unsure('duplicate supplemental probe failed: %s: %s' % (type(e).__name__, e))
+    finally:
+        shutil.rmtree(root, ignore_errors=True)
+
+
 def run(rec, shard, nshards, t):
     tmp = tempfile.mkdtemp(prefix='vt-c07-')
     core.import_tally()
@@ -727,6 +768,8 @@ def run(rec, shard, nshards, t):
             if i < 1 and shard == 0:
                 rec.sample({'pool_files': {k: v['kind'] for k, v in pool['files'].items()}, 'expressions': pool['exprs'][:5]})
         rec.count('pristine_queries', pr.queries)
+        if shard == 0:
+            duplicate_supplemental_probe(rec, tmp)
     finally:
         pr.close()
         shutil.rmtree(tmp, ignore_errors=True)
@@ -738,6 +781,9 @@ def replay(rec, case):
     pr = Pristine(tmp)
     try:
         rnd = core.rng_for('C07', 'replay')
+        if case.get('kind') == 'dup-supplemental':
+            duplicate_supplemental_probe(rec, tmp)
+            return
         for i in range(20):
             pool = make_pool(rnd, tmp, i)
             pr.memo.clear()
